@@ -79,8 +79,8 @@ def register(E):
     @model(r'^<std::vec::Vec as std::iter::IntoIterator>::into_iter$|^<\[T; \d+\] as std::iter::IntoIterator>::into_iter$|^<std::vec::IntoIter as std::iter::IntoIterator>::into_iter$|^<(.+) as std::iter::IntoIterator>::into_iter$')
     def _(E, st, callee, a, m):
         v = d(st, a[0])
-        if isinstance(v, Obj) and v.kind == 'Set':
-            return [(T, Obj('SeqIter', (tuple(v.data), 0)))]
+        if isinstance(v, Obj) and v.kind in ('Set', 'HSet'):
+            return hash_orders(E, v.kind == 'HSet', tuple(v.data), lambda items: Obj('SeqIter', (tuple(items), 0)))
         if isinstance(v, Obj) and v.kind in ('SeqIter', 'Bytes', 'Chars', 'ByteRefIter', 'CharIndices') or isinstance(v, Obj) and v.kind.endswith('Iter'):
             return [(T, v)]
         if isinstance(v, (Seq,)) or isinstance(v, Obj) and v.kind == 'Vec':
@@ -89,7 +89,167 @@ def register(E):
             return [(T, Obj('SeqIter', (tuple(v.fields[:1]) if v.variant == 'Some' else (), 0)))]
         return None
 
-    @model(r'^<(?:std::slice::Iter|std::slice::IterMut|std::vec::IntoIter|std::option::IntoIter|std::option::Iter|std::array::IntoIter) as std::iter::Iterator>::(\w+)$')
+    def hash_orders(E, hashed, items, mk):
+        """iteration over a hash container: under E.hash_any_order every order is a separate outcome (selected by a fresh
+        symbolic index, so the harness can quantify over the orders); otherwise list order"""
+        import itertools as _it
+        if not (hashed and getattr(E, 'hash_any_order', False)) or len(items) < 2:
+            return [(T, mk(items))]
+        perms = list(_it.permutations(items))
+        sel = E.fresh_bv('hash_order')
+        E.axioms.append(z3.ULT(sel, len(perms)))
+        return [(sel == i, mk(p)) for i, p in enumerate(perms)]
+    E.hash_orders = hash_orders
+
+    @model(r'^std::collections::(BTreeSet|HashSet)::(new|insert|remove|len|is_empty|contains|iter)$|^<std::collections::(BTreeSet|HashSet) as std::default::Default>::(default)$')
+    def _(E, st, callee, a, m):
+        """sets as duplicate-free lists (BTreeSet: insertion order, harnesses that depend on its order say so; HashSet: see hash_orders)"""
+        from .core_models import deep_eq
+        which = m.group(1) or m.group(3)
+        op = m.group(2) or m.group(4)
+        kind = 'HSet' if which == 'HashSet' else 'Set'
+        if op in ('new', 'default'):
+            return [(T, Obj(kind, ()))]
+        v = d(st, a[0])
+        if not (isinstance(v, Obj) and v.kind in ('Set', 'HSet')):
+            return None
+        if op == 'len': return [(T, I(len(v.data), 64))]
+        if op == 'is_empty': return [(T, z3.BoolVal(len(v.data) == 0))]
+        if op == 'iter':
+            return hash_orders(E, v.kind == 'HSet', tuple(v.data), lambda items: Obj('SeqIter', (tuple(items), 0)))
+        eqs = [z3.simplify(deep_eq(E, st, x, a[1])) for x in v.data]
+        anyeq = z3.simplify(z3.Or(*eqs)) if eqs else FALSE
+        if op == 'contains':
+            return [(T, anyeq)]
+        if op == 'remove':
+            outs, before = [], T
+            for i, e in enumerate(eqs):
+                c = z3.simplify(z3.And(before, e)); before = z3.simplify(z3.And(before, z3.Not(e)))
+                if z3.is_false(c): continue
+                def eff(st2, i=i): E.store(st2, a[0], Obj(v.kind, tuple(v.data[:i]) + tuple(v.data[i + 1:])))
+                outs.append((c, T, eff))
+            if not z3.is_false(before): outs.append((before, FALSE))
+            return outs
+        def eff(st2):
+            E.store(st2, a[0], Obj(v.kind, tuple(v.data) + (a[1],)))
+        return [(anyeq, FALSE), (z3.simplify(z3.Not(anyeq)), T, eff)]
+
+    # ---- BinaryHeap as a list; pop extracts the maximum by the element type's Ord (crate code for local types)
+    def ord_cmp(E, st, ty, x, y):
+        """[(cond, is_greater(x, y) as z3 Bool, state)]"""
+        res = []
+        for c, o in E.call_value(st, FnItem('<' + ty + ' as std::cmp::Ord>::cmp'), [E.root_ref(st, x), E.root_ref(st, y)]):
+            if o.kind != 'ret':
+                raise Inconclusive('Ord::cmp panics inside BinaryHeap: ' + str(o.value))
+            v = o.value
+            if isinstance(v, Adt):
+                g = z3.BoolVal(v.variant == 'Greater')
+            elif hasattr(v, 'v'):
+                g = v.v == 1
+            else:
+                raise Inconclusive('BinaryHeap: unsupported Ordering value ' + repr(v))
+            res.append((c, g, o.st))
+        return res
+
+    @model(r'^std::collections::BinaryHeap::(new|push|pop|len|is_empty|peek)$|^<std::collections::BinaryHeap as std::convert::From>::(from)$')
+    def _(E, st, callee, a, m):
+        from ..mirparse import turbofish
+        op = m.group(1) or m.group(2)
+        if op == 'new':
+            return [(T, Obj('Heap', ()))]
+        if op == 'from':
+            return [(T, Obj('Heap', tuple(items_of(st, a[0]))))]
+        h = d(st, a[0])
+        if op == 'len': return [(T, I(len(h.data), 64))]
+        if op == 'is_empty': return [(T, z3.BoolVal(len(h.data) == 0))]
+        if op == 'push':
+            def eff(st2): E.store(st2, a[0], Obj('Heap', tuple(h.data) + (a[1],)))
+            return [(T, UNIT, eff)]
+        if not h.data:
+            return [(T, NONE)]
+        mt = re.search(r'BinaryHeap::<(.*)>::(?:pop|peek)$', callee.strip())
+        if not mt:
+            raise Inconclusive('BinaryHeap element type unknown: ' + callee)
+        ty = mt.group(1)
+        # maximum by successive comparisons: [(cond, index of the current maximum, state)]
+        cur = [(T, 0, st)]
+        for j in range(1, len(h.data)):
+            nxt = []
+            for c, bi, s_ in cur:
+                for c2, g, s2 in ord_cmp(E, s_, ty, h.data[j], h.data[bi]):
+                    cg, cl = z3.simplify(z3.And(c, c2, g)), z3.simplify(z3.And(c, c2, z3.Not(g)))
+                    if not z3.is_false(cg): nxt.append((cg, j, s2))
+                    if not z3.is_false(cl): nxt.append((cl, bi, s2))
+            cur = nxt
+        outs = []
+        for c, bi, s_after in cur:
+            def eff(st2, bi=bi, s_after=s_after):
+                st2.heap = dict(s_after.heap); st2.notes = s_after.notes
+                for fid, fr in s_after.fmap.items():
+                    if fid in st2.fmap: st2.fmap[fid].locs = dict(fr.locs)
+                if op == 'pop':
+                    E.store(st2, a[0], Obj('Heap', tuple(h.data[:bi]) + tuple(h.data[bi + 1:])))
+                return some(h.data[bi]) if op == 'pop' else some(E.root_ref(st2, h.data[bi]))
+            outs.append((c, None, eff))
+        return outs
+
+    @model(r'^<std::cmp::Reverse as std::cmp::Ord>::cmp$|^<std::cmp::Reverse as std::cmp::PartialOrd>::partial_cmp$')
+    def _(E, st, callee, a, m):
+        mt = re.search(r'^<std::cmp::Reverse<(.*)> as std::cmp::(Ord|PartialOrd)', callee.strip())
+        if not mt:
+            return None
+        x, y = d(st, a[0]), d(st, a[1])
+        item = 'cmp' if mt.group(2) == 'Ord' else 'partial_cmp'
+        return E.outs_to_model(E.call_value(st, FnItem('<' + mt.group(1) + ' as std::cmp::' + mt.group(2) + '>::' + item), [E.root_ref(st, y.fields[0]), E.root_ref(st, x.fields[0])]))
+
+    @model(r'^std::collections::(?:HashMap|BTreeMap)::entry$')
+    def _(E, st, callee, a, m):
+        return [(T, Obj('MapEntry', (a[0], a[1])))]
+
+    @model(r'^std::collections::(?:hash_map|btree_map)::Entry::(or_insert_with|or_insert|or_default)$')
+    def _(E, st, callee, a, m):
+        ent = d(st, a[0])
+        mref, key = ent.data
+        mp = d(st, mref)
+        kind, ents = mp.data
+        from .core_models import deep_eq
+        base = mref
+        while isinstance(base, Ref):
+            nxt = E.read_ref(st, base)
+            if isinstance(nxt, Ref): base = nxt
+            else: break
+        op = m.group(1)
+        outs, before = [], T
+        for i, (k, v) in enumerate(ents):
+            e = z3.simplify(deep_eq(E, st, k, key))
+            c = z3.simplify(z3.And(before, e)); before = z3.simplify(z3.And(before, z3.Not(e)))
+            if z3.is_false(c): continue
+            outs.append((c, Ref(base.frame, base.local, base.proj + (('mapval', i),))))
+        if z3.is_false(before):
+            return outs
+        if op == 'or_insert':
+            vals = [(T, a[1], None)]
+        elif op == 'or_insert_with':
+            vals = [(c, o.value, o.st) for c, o in E.call_value(st, a[1], []) if o.kind == 'ret']
+        else:
+            from ..mirparse import split_top
+            mt = re.search(r'Entry::<(.*)>::or_default$', callee.strip())
+            vty = split_top(mt.group(1))[-1].strip() if mt else None
+            if vty is None:
+                raise Inconclusive('Entry::or_default: value type unknown')
+            vals = [(c, o.value, o.st) for c, o in E.call_value(st, FnItem('<' + vty + ' as std::default::Default>::default'), []) if o.kind == 'ret']
+        for c, val, s_after in vals:
+            def eff(st2, val=val, s_after=s_after):
+                if s_after is not None:
+                    st2.heap = dict(s_after.heap); st2.notes = s_after.notes
+                    for fid, fr in s_after.fmap.items():
+                        if fid in st2.fmap: st2.fmap[fid].locs = dict(fr.locs)
+                E.store(st2, mref, E.mk_map(kind, tuple(ents) + ((key, val),)))
+                return Ref(base.frame, base.local, base.proj + (('mapval', len(ents)),))
+            outs.append((z3.simplify(z3.And(before, c)), None, eff))
+        return outs
+
+    @model(r'^<(?:std::slice::Iter|std::slice::IterMut|std::vec::IntoIter|std::option::IntoIter|std::option::Iter|std::array::IntoIter|std::collections::btree_set::IntoIter|std::collections::btree_set::Iter|std::collections::hash_set::IntoIter|std::collections::hash_set::Iter|std::collections::hash_map::Iter|std::collections::hash_map::IntoIter|std::collections::hash_map::Keys|std::collections::btree_map::Iter) as std::iter::Iterator>::(\w+)$')
     def _(E, st, callee, a, m):
         return seq_iter_op(E, st, callee, a, m.group(1))
 
@@ -564,8 +724,9 @@ def register_maps(E):
         mp = d(st, a[0])
         kind, ents = mp.data
         byref = callee.lstrip().startswith('<&') or (m.group(1) in ('iter', 'iter_mut'))
+        hashed = kind == 'HashMap'
         if not byref:
-            return [(T, Obj('SeqIter', (tuple(Tup([k, v]) for k, v in ents), 0)))]
+            return E.hash_orders(E, hashed, tuple(Tup([k, v]) for k, v in ents), lambda items: Obj('SeqIter', (tuple(items), 0)))
         base = a[0]
         while isinstance(base, Ref):
             nxt = E.read_ref(st, base)
@@ -575,7 +736,7 @@ def register_maps(E):
         for i, (k, v) in enumerate(ents):
             kr = k if isinstance(k, Str) else Ref(base.frame, base.local, base.proj + (('mapkey', i),))
             items.append(Tup([kr, Ref(base.frame, base.local, base.proj + (('mapval', i),))]))
-        return [(T, Obj('SeqIter', (tuple(items), 0)))]
+        return E.hash_orders(E, hashed, tuple(items), lambda items_: Obj('SeqIter', (tuple(items_), 0)))
 
     @model(r'^' + MAPS + r'::(keys|values|into_keys|into_values)$')
     def _(E, st, callee, a, m):
